@@ -232,3 +232,27 @@ pub struct OpaqueSecretKey {}
 pub struct OpaqueConnHandler {}
 //@ extract struct Core file=crates/tako/src/internal/server/core.rs field_types=worker_groups:WorkerGroupsMap,secret_key:OpaqueSecretKey,custom_conn_handler:OpaqueConnHandler
 //@ extract struct CoreSplitMut file=crates/tako/src/internal/server/core.rs field_types=worker_groups:&'a~mut~WorkerGroupsMap
+
+// N8e helper: a snapshot of the task ids (TaskMap::tasks_mut() visits every stored task exactly once)
+#[verifier::external_body]
+fn hq_task_ids(tm: &TaskMap) -> (r: Vec<TaskId>)
+    ensures
+        r@.no_duplicates(),
+        forall|t: TaskId| r@.contains(t) <==> tm.tasks@.contains_key(t),
+{ unimplemented!() }
+
+// Core::remove_worker (core.rs): also updates the worker groups (String-keyed map; not relevant here). ASSUMED contract.
+//@ extract sig Core::remove_worker file=crates/tako/src/internal/server/core.rs arity=2
+impl Core {
+    #[verifier::external_body]
+    fn remove_worker(&mut self, worker_id: WorkerId) -> (r: Worker)
+        ensures
+            old(self).workers.workers@.contains_key(worker_id), r == old(self).workers.workers@[worker_id],
+            final(self).workers.workers@ == old(self).workers.workers@.remove(worker_id),
+            final(self).tasks == old(self).tasks, final(self).task_queues == old(self).task_queues, final(self).scheduler_state == old(self).scheduler_state,
+            final(self).resource_map == old(self).resource_map, final(self).worker_id_counter == old(self).worker_id_counter,
+    { unimplemented!() }
+}
+//@ extract fn Worker::assignment file=crates/tako/src/internal/server/worker.rs
+    ensures *r == self.assignment,
+//@ end
